@@ -130,9 +130,18 @@ class Sources:
             return out
         for b in node.bases:
             if isinstance(b, ast.Name):
-                r = self.resolve_class(mod, b.id)
+                r = None
+                if "." in cls:  # nested class: a sibling nested class shadows module-level names
+                    sib = cls.rsplit(".", 1)[0] + "." + b.id
+                    if sib in m.classes:
+                        r = (mod, sib)
+                r = r or self.resolve_class(mod, b.id)
                 if r:
                     out.append(r)
+            elif isinstance(b, ast.Attribute):
+                q = ast.unparse(b)
+                if q in m.classes:
+                    out.append((mod, q))
         return out
 
     def resolve_class(self, mod, name):
